@@ -176,7 +176,12 @@ def run(ctx):
             b = F.fn(name)
             acc = one(b, r"QueryResponseWriter::try_accept_row$")
             te = bool_result_edge(b, acc, True)
-            pushes = [p for p in b.find_calls(r"Vec::push$") if any(b.local_name(x) == "valid_row_indices" for x in b._origin_locals(p.args[0]))]
+            # the accepted-row list: the Vec<usize> that receives a push on the accepting edge
+            VR = set()
+            for p_ in b.find_calls(r"Vec::push$"):
+                if any(b.dominates_edge(e, p_.bb) for e in te):
+                    VR |= {x for x in b._origin_locals(p_.args[0]) if b.local_ty(x).startswith("std::vec::Vec<usize")}
+            pushes = [p for p in b.find_calls(r"Vec::push$") if b._origin_locals(p.args[0]) & VR]
             if not pushes:
                 raise AnchorMissing("valid_row_indices.push")
             inst.sites = [sp(b, acc.bb)] + [sp(b, p.bb) for p in pushes]
@@ -196,7 +201,7 @@ def run(ctx):
                         if l[0] == "agg" and l[1].endswith("Option::Some"):
                             for (bb_, j_, v_, _d) in b.aggregates("option::Option", "Some"):
                                 if bb_ == l[2]:
-                                    if not any(b.local_name(x) == "valid_row_indices" for x in b._origin_locals(v_["o"][0], depth=14)):
+                                    if not (b._origin_locals(v_["o"][0], depth=14) & VR):
                                         bad.append(("render-unfiltered:write_batch", "Arrow batch is written with row indices that are not valid_row_indices", None))
                         elif not (l[0] == "agg" and l[1].endswith("Option::None")):
                             bad.append(("render-unfiltered:write_batch", "Arrow batch row selection has an unexpected origin %s" % (l,), None))
@@ -205,8 +210,8 @@ def run(ctx):
                 for a_ in r.args:
                     L |= b.origins(a_, transparent=NEXT_TRANSPARENT, depth=16)
                 txt = fmt_leaves(L)
-                ok = any(any(b.local_name(x) == "valid_row_indices" for x in b._origin_locals(a_, depth=14)) for a_ in r.args)
-                if not ok and "collect" not in txt and "valid_row_indices" not in txt:
+                ok = any(deep_locals(b, a_, wide=True) & VR for a_ in r.args)
+                if not ok:
                     bad.append(("render-unfiltered:%s" % r.nname.split("::")[-1], "%s renders rows not selected through valid_row_indices (%s)" % (name, txt[:200]), None))
             return bad
         return f
